@@ -43,6 +43,21 @@ def generate(src):
         v = to_val(args[0]); r = int_(v)
         st.facts.append(Implies(Val.is_intv(v), r == v)); st.pc.append(Val.is_intv(r)); return k(st, PyInt(Val.i(r)))      # int(i)==i ; int() returns an int (ValueError path omitted: labels come from prepare/parse)
     def h_lower(ex, st, e, recv, args, kw, k, K): return k(st, lower_(to_val(recv)))
+    str_ = Function('py_str', Val, Val)
+    def h_str(ex, st, e, recv, args, kw, k, K):
+        v = to_val(args[0]); r = str_(v); st.pc += [Implies(Val.is_strv(v), r == v), Val.is_strv(r)]; return k(st, r)          # str(s) is s for a str
+    def h_parse_label(ex, st, e, recv, args, kw, k, K):
+        """the middleware delegates the meaning of a string label to taskiq.labels.parse_label(v, LabelType.BOOL): the REAL table entry of
+        taskiq/labels.py is executed here (parse_label's dispatch through _LABEL_PARSERS is the contract of unit u_labels)."""
+        if len(args) != 2 or kw or not (isinstance(args[1], PyCallable) and args[1].name == 'LabelType.BOOL'): raise Unsupported("parse_label call shape: " + ast.unparse(e))
+        tn = [n_ for n_ in src.tree('taskiq/labels.py').body if isinstance(n_, (ast.Assign, ast.AnnAssign)) and '_LABEL_PARSERS' in ast.unparse(n_.targets[0] if isinstance(n_, ast.Assign) else n_.target)]
+        if not tn or not isinstance(tn[0].value, ast.Dict): raise Unsupported("table _LABEL_PARSERS not found as a dict display")
+        ent = [v for k_, v in zip(tn[0].value.keys, tn[0].value.values) if ast.unparse(k_) == 'LabelType.BOOL']
+        if len(ent) != 1 or not isinstance(ent[0], ast.Lambda) or len(ent[0].args.args) != 1: raise Unsupported("_LABEL_PARSERS[LabelType.BOOL] is not a one-argument lambda")
+        src.func('taskiq/labels.py', 'parse_label')          # recorded as source under contract (hash in the evidence)
+        saved = st.env; st.env = {ent[0].args.args[0].arg: args[0]}
+        def back(s, v): s.env = saved; return k(s, v)
+        return ex.ev(ent[0].body, st, back, K)
     class Kicker:
         def __init__(s, **f): s.__dict__.update(f)
     def h_AsyncKicker(ex, st, e, recv, args, kw, k, K):
@@ -78,7 +93,7 @@ def generate(src):
         def assign(self, tgt, v, st, k, K):
             if ast.unparse(tgt) == 'result.error': st.ghost = dict(st.ghost); st.ghost['result_error'] = to_val(v); return k(st)
             return super().assign(tgt, v, st, k, K)
-    ex = Ex({'logger.*': noop, 'isinstance': h_isinstance, 'dict.get': h_dict_get, 'int': h_int, 'AsyncKicker': h_AsyncKicker, 'NoResultError': h_NoResultError})
+    ex = Ex({'logger.*': noop, 'isinstance': h_isinstance, 'dict.get': h_dict_get, 'int': h_int, 'AsyncKicker': h_AsyncKicker, 'NoResultError': h_NoResultError, 'parse_label': h_parse_label, 'str': h_str})
     st = State(); h = st.heap; st.env = {'self': PyObj(self_a), 'message': PyObj(msg_a), 'result': PyObj(res_a), 'exception': exc}
     err0 = fresh('result_error0'); st.ghost = dict(kicks=IntVal(0), sent=None, result_error=err0)
     dflt_count = h.field('default_retry_count')[self_a]; dflt_label = h.field('default_retry_label')[self_a]; nror = h.field('no_result_on_retry')[self_a]
